@@ -1282,6 +1282,9 @@ def off_check_program(steps: list, sel: str, seed: int) -> dict:
         except Exception as e:  # noqa: BLE001
             which = "on" if r is on else "off"
             if which == "off" and len(models) == 1:
+                if "does not specify the shape" in str(e) or "not concrete" in str(e):
+                    # fewer types are known without propagated values and `build` insists on known ranks: no model to compare
+                    return {"failures": [], "infra": f"builds only with propagation on: {str(e)[:120]}"}
                 return {"failures": [(f"off-build-fails:{type(e).__name__}", f"build fails only with propagation off: {str(e)[:150]}")]}
             return {"failures": [], "infra": f"build failed ({which}) {type(e).__name__}: {str(e)[:150]}"}
     m_on, m_off = models
